@@ -503,10 +503,16 @@ def battery_vector(ctx, rng, st, a, ma, b, mb, wit, kind):
         compare(ctx, st, f"{kind}.__sub__", a - b, m_add(ma, m_mul(mb, -1)), s, wit, "a-b")
         compare(ctx, st, f"{kind}.sum()", sum([a, b]), m_add(ma, mb), 2 * s, wit, "sum([a,b])")
     # neutral elements
-    for nm, r in (("a+Void", a + Void()), ("Void+a", Void() + a), ("a-Void", a - Void()), ("a+None", a + None),
-                  ("a+0", a + 0), ("0+a", 0 + a)):
-        compare(ctx, st, f"{kind}.void_neutral", r, ma, s, wit, nm)
+    for nm, f in (("a+Void", lambda: a + Void()), ("Void+a", lambda: Void() + a), ("a-Void", lambda: a - Void()),
+                  ("a+None", lambda: a + None), ("a+0", lambda: a + 0), ("0+a", lambda: 0 + a)):
         ctx.count("void_neutrality_checks")
+        try:
+            r = f()
+        except Exception as e:  # noqa  - any exception here refutes "the void result is neutral"
+            ctx.ev()
+            ctx.violation(f"{kind}.void_neutral:raises", f"{nm} raised {type(e).__name__}: {e}", wit)
+            continue
+        compare(ctx, st, f"{kind}.void_neutral", r, ma, s, wit, nm)
     compare(ctx, st, f"{kind}.void_neutral", Void() - a, m_mul(ma, -1), s, wit, "Void-a")
     compare(ctx, st, f"{kind}.void_neutral", (a + Void()) + b, m_add(ma, mb), s, wit, "(a+Void)+b")
     return wit
@@ -710,9 +716,16 @@ def case_kband(ctx, rng, st):
     compare(ctx, st, f"{name}.__sub__", a - a2, m_sub_direct(ma, ma2), s, wit, "a-a2")
     compare(ctx, st, f"{name}.__sub__", (a + b) - (a2 + b), ("K", np.concatenate([ma[1] - d2, mb[1] * 0], axis=0), meta), s, wit,
             "(a+b)-(a2+b)")
-    for nm, r in (("a+Void", a + Void()), ("Void+a", Void() + a), ("a-Void", a - Void()), ("a+None", a + None)):
-        compare(ctx, st, f"{name}.void_neutral", r, ma, s, wit, nm)
+    for nm, f in (("a+Void", lambda: a + Void()), ("Void+a", lambda: Void() + a), ("a-Void", lambda: a - Void()),
+                  ("a+None", lambda: a + None)):
         ctx.count("void_neutrality_checks")
+        try:
+            r = f()
+        except Exception as e:  # noqa  - any exception here refutes "the void result is neutral"
+            ctx.ev()
+            ctx.violation(f"{name}.void_neutral:raises", f"{nm} raised {type(e).__name__}: {e}", wit)
+            continue
+        compare(ctx, st, f"{name}.void_neutral", r, ma, s, wit, nm)
     compare(ctx, st, f"{name}.void_neutral", Void() - a, m_mul(ma, -1), s, wit, "Void-a")
     compare(ctx, st, f"{name}.void_neutral", (a + Void()) + b, m_add(ma, mb), s, wit, "(a+Void)+b")
     check_mul_array(ctx, rng, st, a, ma, wit)
